@@ -62,10 +62,15 @@ Definition oref_of (o : obj) : oref :=
   | OBlank _ | OVal _ => ROther
   end.
 
-(* callbacks made, in order: enter(path,key,old value) / visit(path,key,new value) *)
+(* callbacks made, in order: enter(path,key,old value) / visit(path,key,new value) /
+   exit(path,key,old parent,new parent,new items) *)
 Inductive event :=
 | EEnter (p : path) (k : key) (r : oref) (s : sview)
-| EVisit (p : path) (k : key) (s : val).
+| EVisit (p : path) (k : key) (s : val)
+| EExit (p : path) (k : key) (id : nat) (items : list (key * sview)).   (* exit(path, key, old, new, new_items) *)
+
+Definition shallow_items (items : list (key * obj)) : list (key * sview) :=
+  map (fun kv => (fst kv, shallow (erase (snd kv)))) items.
 
 (* shallow look of an input value; a reference is resolved through [defs] *)
 Definition in_view (defs : table obj) (o : obj) : sview :=
@@ -106,7 +111,7 @@ Section Recursive.
                      children r (acc ++ opt_list it) m' lg''
                  end) items [] (t_set m id (blank id k)) (lg ++ [EEnter p ky (RObj id) (in_view defs o)]) in
             let v := ONode id k (build erase k items') in
-            (v, t_set m1 id v, lg1)
+            (v, t_set m1 id v, lg1 ++ [EExit p ky id (shallow_items items')])
         end
     | ORef id k =>
         match t_get m id with
